@@ -3,6 +3,7 @@
 package actionlint
 
 import (
+	"io"
 	"sort"
 
 	"gopkg.in/yaml.v3"
@@ -160,4 +161,32 @@ func verifErrText(errs []*Error) string {
 		s += e.Kind + ":" + e.Message + " | "
 	}
 	return s
+}
+
+// verifLinter: a Linter made by the repository's own constructor (no struct literal: the
+// harnesses do not depend on the fields a Linter has). cwd "" = the process's working directory.
+func verifLinter(cwd, shellcheck, pyflakes string) *Linter {
+	l, err := NewLinter(io.Discard, &LinterOptions{WorkingDir: cwd, Shellcheck: shellcheck, Pyflakes: pyflakes})
+	if err != nil || l == nil {
+		verifCheck(false, "harness-linter-not-created")
+		return &Linter{}
+	}
+	return l
+}
+
+func verifLinterFmt(cwd string, f *ErrorFormatter) *Linter {
+	l := verifLinter(cwd, "", "")
+	l.errFmt = f
+	return l
+}
+
+// verifErrOnLine: diagnostics anywhere on the line of n (placeholders inside a scalar are reported at an offset).
+func verifErrOnLine(errs []*Error, n *yaml.Node) int {
+	c := 0
+	for _, e := range errs {
+		if e.Line == n.Line {
+			c++
+		}
+	}
+	return c
 }
